@@ -173,8 +173,8 @@ def _loop():
     return _LOOP
 
 
-def _wsgi_request(app, path, inm, ims):
-    environ = {"REQUEST_METHOD": "GET", "SCRIPT_NAME": "", "PATH_INFO": path, "QUERY_STRING": "",
+def _wsgi_request(app, path, inm, ims, method="GET"):
+    environ = {"REQUEST_METHOD": method, "SCRIPT_NAME": "", "PATH_INFO": path, "QUERY_STRING": "",
                "SERVER_NAME": "testserver", "SERVER_PORT": "80", "SERVER_PROTOCOL": "HTTP/1.1",
                "wsgi.url_scheme": "http", "HTTP_HOST": "testserver"}
     if inm is not None:
@@ -191,13 +191,13 @@ def _wsgi_request(app, path, inm, ims):
     return got["status"], got["headers"], body
 
 
-async def _asgi_request(app, path, inm, ims):
+async def _asgi_request(app, path, inm, ims, method="GET"):
     headers = [(b"host", b"testserver")]
     if inm is not None:
         headers.append((b"if-none-match", inm.encode("latin-1")))
     if ims is not None:
         headers.append((b"if-modified-since", ims.encode("latin-1")))
-    scope = {"type": "http", "asgi": {"version": "3.0"}, "http_version": "1.1", "method": "GET", "scheme": "http",
+    scope = {"type": "http", "asgi": {"version": "3.0"}, "http_version": "1.1", "method": method, "scheme": "http",
              "path": path, "raw_path": path.encode(), "query_string": b"", "root_path": "", "headers": headers,
              "server": ("testserver", 80), "client": ("127.0.0.1", 1234)}
     msgs = []
@@ -252,8 +252,16 @@ def _opaque(etag_header):
     return etag_header
 
 
+_HEAD = [False]
+
+
 async def _run_hist(line):
     iface, app_name, tps, size, mtime, ctime, ops = parse_hist(line)
+    # `!H`: the conditional requests of the history are HEAD requests (validators work for HEAD as for GET; a 200
+    # answer to HEAD has no body - it stands for the file as it is now)
+    _HEAD[0] = app_name.endswith("!H")
+    if _HEAD[0]:
+        app_name = app_name[:-2]
     app_name, _, tz = app_name.partition("@")
     if tz:
         # the process time zone of the server: validators are GMT dates and must not depend on it
@@ -313,11 +321,12 @@ async def _run_hist_tz(line, iface, app_name, tps, size, mtime, ctime, ops):
                 if inm == "":
                     inm = None
             ims = src[1] if use_lm else None
+            method = "HEAD" if (_HEAD[0] and (inm is not None or ims is not None)) else "GET"
             try:
                 if iface == "wsgi":
-                    status, hdrs, body = _wsgi_request(app, path, inm, ims)
+                    status, hdrs, body = _wsgi_request(app, path, inm, ims, method)
                 else:
-                    status, hdrs, body = await _asgi_request(app, path, inm, ims)
+                    status, hdrs, body = await _asgi_request(app, path, inm, ims, method)
             except Exception as exc:  # noqa
                 raw.append((None, None))
                 out.append(exc_name(exc).replace(" ", "="))
@@ -329,6 +338,8 @@ async def _run_hist_tz(line, iface, app_name, tps, size, mtime, ctime, ops):
             else:
                 raw.append((None, None))
             btok = "-" if body == b"" else ("b%d" % bodies[body] if body in bodies else "b?")
+            if method == "HEAD" and status == 200:
+                btok = "b%d" % version if body == b"" else "b?head-with-body"
             if status == 200:
                 if len(et) == 1 and len(et[0]) >= 2 and et[0][0] == '"' and et[0][-1] == '"':
                     if et[0] not in etags:
@@ -896,6 +907,20 @@ def cases(rng, tier):
     # --- random long histories, every interface x app
     n_random = 400 if not thorough else 1500
     variants = [(i, a) for i in ("wsgi", "asgi") for a in ("files", "pages", "pagesx")]
+    # ... modifications whole days (and whole days +- a second / a tick) after the held validators
+    for tps in (1, 4):
+        for days in (1, 2, 7, 365):
+            for off in (-tps, -1, 0, 1, tps):
+                t = (BASE + 86400 * days) * tps + off
+                for mod in ("ws:%d" % t, "wo:%d:21" % t, "to:%d" % t, "ro:%d:%d:21" % (t, BASE * tps)):
+                    for iface in ("wsgi", "asgi"):
+                        yield hist(iface, "files", tps, 20, BASE * tps, BASE * tps, ["pl", mod, "rq:0:1:-", "rq:0:1:34/E/34"])
+    # ... with HEAD as the method of the conditional requests
+    for idx, abstract in enumerate(exhaustive(3, core, False, allmods)):
+        tps, step = TICKS[idx % 3]
+        ops = concretise(abstract, tps, step, BASE)
+        for iface in ("wsgi", "asgi"):
+            yield hist(iface, ("files", "pages")[idx % 2] + "!H", tps, 20, BASE * tps, BASE * tps, ops)
     # ... and under process time zones west and east of UTC (with and without DST)
     for idx, abstract in enumerate(exhaustive(3, core, False, allmods)):
         tps, step = TICKS[idx % 3]
